@@ -351,7 +351,9 @@ func VP_C07_builtins() {
 	fn := []string{"round", "roundBank", "abs", "ceil", "floor", "toInt", "finite", "toString", "max", "min"}[vpChoice("fn", 10)]
 	x := vpNumParamExp("x", 1000, -2, 0)
 	if vpBool("manyDigits") {
-		x.coef += 1234567890123456000 // 19 significant digits: not representable in binary floating point
+		// 19 significant digits (not representable in binary floating point); concrete, because a value
+		// that leaves through float64 is re-parsed by strconv, which cannot run on symbolic digits
+		x = vpNum{neg: x.neg, coef: 1234567890123456789, exp: -2}
 	}
 	num := x.big()
 	data := map[string]interface{}{"num": num}
